@@ -8,6 +8,9 @@ labelled tree. Checked per node:
   2. implementation == label of the TRUE syntactic parent; a difference is a KNOWN-FINDING only when the narrow
      classifier of the open finding (equal nodes share the first registered parent) holds at that node, otherwise a
      VIOLATION; in particular a reachable node for which the query returns None (node never indexed) is a VIOLATION;
+  2b. the crate's == between two nodes that both carry a span at different positions is allowed only for the kinds of
+     the committed baseline (Identifier); for any other kind it is a VIOLATION ("equality of <kind> ignores position"),
+     and a wrong parent is the known finding only when the colliding nodes differ by baseline-ignored positions alone;
   3. root has no parent, every answer is a walked node, == is an equivalence, typed Parent queries agree.
 """
 import json, os, random, time
@@ -24,6 +27,14 @@ KF_COLLISION = "kf-c20-equal-nodes-share-first-parent"
 # The model variant is fixed: the Type2::Unwrap arm registers its generic arguments (/repo commit 2a3eb9a).
 # The pre-repair behaviour (Arena.v, fx = false) is never selected by the check: if it comes back it is a VIOLATION.
 FX = 1
+# Committed baseline, measured on /repo (seeds 0-3, 8,000 documents): the node kinds whose == ignores the node's own
+# position, i.e. for which two nodes at DIFFERENT spans compare equal. Only Identifier (hand-written PartialEq on the
+# printed text, src/ast/mod.rs:238). The open finding is about nodes that carry no position of their own (identifier
+# text, literal values, control operators, span-less entries built from those, and nodes whose spans coincide);
+# an == between two span-carrying nodes with different spans of any other kind is a VIOLATION.
+SPAN_IGNORING_BASELINE = {11}
+# kinds for which two == nodes may have different children (number or == classes): none
+CONTENT_IGNORING_BASELINE = set()
 # witnesses of FIXED findings: run first, must be entirely correct (no known-finding classifier applies to them)
 FIXED_CORPUS = ["a = ~b<int>", "a = ~b<int, tstr>", "a = [~b<1>, ~c<2>]", "a = ~b<c<d>>"]   # all nodes pairwise distinct
 
@@ -304,7 +315,7 @@ TEMPLATES = [
     "a = { int => tstr, int => tstr }", "a = { int ^ => tstr, int ^ => tstr }", "a = [2*3 int, 2*3 int]",
     "a = h'01' / h'01' / 'x' / 'x' / b64'AQ' / b64'AQ'", "a = -1 / -1 / 1.5 / 1.5", "a = \"s\" / \"s\"",
     "a = int", "a = {}", "a = []", "a = [int // int]", "a = { x: int // x: int }", "a = b<int, int>",
-    "a = [ + ( int, tstr ) ]", "a = int ; c\nb = int ; c\n", "a = $x / $x", "$x /= int\n$x /= int", "a = [$$g, $$g]",
+    "a = [ + ( int, tstr ) ]", "a = { ? x: int, ? y: tstr, z: bool }", "a = [ * x, * y ]\nb = [ + x, + y ]", "a = int ; c\nb = int ; c\n", "a = $x / $x", "$x /= int\n$x /= int", "a = [$$g, $$g]",
 ]
 
 
@@ -376,13 +387,20 @@ def evaluate(text, impl_line, model_line_for, fx):
         ev["viol"].append(("document accepted by cddl_from_str but ParentVisitor::new did not succeed: %s" % impl_line, {}))
         return ev
     parts = impl_line.split("\t")
-    tok, ans, ptr, flags = parts[1], parts[2].split(" "), parts[3], parts[4] if len(parts) > 4 else ""
+    if len(parts) < 7:
+        ev["viol"].append(("driver output has %d fields, 7 expected" % len(parts), {}))
+        return ev
+    tok, ans, ptr, flags = parts[1], parts[2].split(" "), parts[3], parts[4]
+    spans, eqspan = parts[5].split(" "), parts[6]
     nodes, parent, path, child_idx = parse_tree(tok)
     n = len(nodes)
+    kids = [[] for _ in range(n)]
+    for i in range(1, n):
+        kids[parent[i]].append(i)
     st.update(status="ok", nodes=n, tok=tok)
     model_line = model_line_for(tok)
     mitems = model_line.split(" ")
-    if len(ans) != n or len(mitems) != n or len(ptr) != n:
+    if len(ans) != n or len(mitems) != n or len(ptr) != n or len(spans) != n:
         ev["viol"].append(("output length mismatch: %d nodes, %d answers, %d model answers (%s)" % (n, len(ans), len(mitems), model_line[:60]), {}))
         return ev
     model = [m.split("@")[0] for m in mitems]
@@ -394,6 +412,33 @@ def evaluate(text, impl_line, model_line_for, fx):
         for f in flags.split(","):
             ev["viol"].append(("driver flag %s: %s" % (f, {"eq-not-equivalence": "the crate's == on CDDLType values is not an equivalence relation on this document",
                                                            "root-typed-some": "CDDL::parent returned Some"}.get(f, "typed Parent query disagrees with CDDLType::parent")), {"flag": f}))
+    # --- the crate's == must not ignore positions or content, except for the committed baseline ----------------------
+    span_ignoring = set()
+    if eqspan:
+        for e in eqspan.split(","):
+            k, a, b = (int(x) for x in e.split(":"))
+            span_ignoring.add(k)
+            if k not in SPAN_IGNORING_BASELINE:
+                ev["viol"].append(("equality of %s ignores position: nodes %s (span %s) and %s (span %s) compare == (not in the baseline %s)"
+                                   % (KIND_NAMES.get(k, k), path_s[a], spans[a], path_s[b], spans[b],
+                                      sorted(KIND_NAMES[x] for x in SPAN_IGNORING_BASELINE)), {"node": b, "eqspan": e}))
+    first_sig = {}
+    for i in range(n):
+        sig = (nodes[i][0], tuple(labels[j] for j in kids[i]))
+        f = first_sig.setdefault(labels[i], (sig, i))
+        if f[0] != sig and nodes[i][0] not in CONTENT_IGNORING_BASELINE:
+            ev["viol"].append(("equality of %s ignores part of its content: nodes %s and %s compare == but their children differ"
+                               % (KIND_NAMES.get(nodes[i][0], nodes[i][0]), path_s[f[1]], path_s[i]), {"node": i}))
+            break
+
+    def position_free(a, b):
+        """a == b is of the kind the open finding is about: same shape, and wherever both carry a span and the spans
+        differ the kind is in the baseline (so the two values differ by nothing but baseline-ignored positions)"""
+        if nodes[a][0] != nodes[b][0] or len(kids[a]) != len(kids[b]):
+            return False
+        if spans[a] != "-" and spans[b] != "-" and spans[a] != spans[b] and nodes[a][0] not in SPAN_IGNORING_BASELINE:
+            return False
+        return all(position_free(x, y) for x, y in zip(kids[a], kids[b]))
     if ans[0] != "-":
         ev["viol"].append(("the document root has a parent: query at the CDDL node returned class %s" % ans[0], {"node": 0}))
     if labels.count(labels[0]) != 1:
@@ -428,13 +473,14 @@ def evaluate(text, impl_line, model_line_for, fx):
             continue
         m = idx_of_path.get(mfirst[i])
         if (m is not None and m != i and labels[m] == labels[i] and parent[m] is not None
-                and str(labels[parent[m]]) == ans[i] and labels[parent[m]] != labels[parent[i]]):
+                and str(labels[parent[m]]) == ans[i] and labels[parent[m]] != labels[parent[i]]
+                and position_free(m, i)):
             collisions += 1
             ev["known"].setdefault(KF_COLLISION, {"node": path_s[i], "kind": KIND_NAMES.get(kind, kind), "first_registered_equal_node": path_s[m]})
         else:
-            ev["viol"].append(("parent query at node %s (%s) returns class %s, the true parent has class %s, and no earlier registered == node explains it"
-                               % (path_s[i], KIND_NAMES.get(kind, kind), ans[i], truth), {"node": i}))
-    st.update(wrong=wrong, unindexed=unindexed, collisions=collisions, ptr_diff=ptr_diff, wrong_kinds=wrong_kinds,
+            ev["viol"].append(("parent query at node %s (%s) returns class %s, the true parent has class %s, and it is not explained by an earlier "
+                               "registered node that is == and carries no distinguishing position" % (path_s[i], KIND_NAMES.get(kind, kind), ans[i], truth), {"node": i}))
+    st.update(span_ignoring=span_ignoring, wrong=wrong, unindexed=unindexed, collisions=collisions, ptr_diff=ptr_diff, wrong_kinds=wrong_kinds,
               nodup=len(set(labels)) == n, kinds=[x[0] for x in nodes], has_unwrap_args=any(
                   nodes[i][0] == K_UNWRAP and nodes[i][2] >= 2 for i in range(n)), model_line=model_line)
     return ev
@@ -503,6 +549,7 @@ def run(tier, seed):
     docs_with_repeats = docs_nodup = docs_nodup_all_correct = docs_unwrap_args = 0
     wrong_total = unindexed_total = ptr_diff_total = 0
     distinct, samples = set(), []
+    span_ignoring_seen = {}
     ok_cases = []
     for (cls, text), line in zip(docs, impl):
         evaluations += 1
@@ -526,9 +573,11 @@ def run(tier, seed):
             else:
                 res.violation("%r: node %s shows the defect class %s, which is not an open finding" % (text, ex["node"], kid),
                               {"cmd": "P", "text": text, "fx": fx})
-        if st["status"] != "ok":
+        if st["status"] != "ok" or "kinds" not in st:
             continue
         ok_cases.append((text, st["tok"], st["model_line"], st["nodes"]))
+        for k in st["span_ignoring"]:
+            span_ignoring_seen[KIND_NAMES.get(k, str(k))] = span_ignoring_seen.get(KIND_NAMES.get(k, str(k)), 0) + 1
         node_evals += st["nodes"]
         for k in st["kinds"]:
             kind_hist[k] = kind_hist.get(k, 0) + 1
@@ -592,6 +641,8 @@ def run(tier, seed):
         "documents_all_nodes_distinct": docs_nodup,
         "documents_all_nodes_distinct_and_every_answer_correct": docs_nodup_all_correct,
         "documents_with_unwrap_generic_args": docs_unwrap_args,
+        "kinds_whose_equality_ignores_the_span_baseline": sorted(KIND_NAMES[k] for k in SPAN_IGNORING_BASELINE),
+        "kinds_whose_equality_ignores_the_span_observed_documents": span_ignoring_seen,
         "wrong_parent_answers_total": wrong_total,
         "wrong_parent_answers_by_node_kind": wrong_kinds,
         "unindexed_nodes_total": unindexed_total,
